@@ -79,11 +79,14 @@ func ruleDockerMatch(r *Run) {
 		return
 	}
 	m, s := fn.Params[0], fn.Params[1]
+	// values are resolved on the path: the comparison may sit in a helper or in a
+	// function taken from a table, whose parameters are bound to match's
+	var res func(v ssa.Value) ssa.Value
 	isMField := func(v ssa.Value, name string) bool {
 		f, base, ok := loadOfField(v)
-		return ok && f == name && (base == ssa.Value(m) || spillParam(base) == ssa.Value(m))
+		return ok && f == name && (base == ssa.Value(m) || spillParam(base) == ssa.Value(m) || res(spillParam(base)) == ssa.Value(m))
 	}
-	isS := func(v ssa.Value) bool { return v == ssa.Value(s) }
+	isS := func(v ssa.Value) bool { return v == ssa.Value(s) || res(v) == ssa.Value(s) }
 	classify := func(v ssa.Value) string {
 		neg := false
 		if u, ok := v.(*ssa.UnOp); ok && u.Op == token.NOT {
@@ -123,7 +126,7 @@ func ruleDockerMatch(r *Run) {
 	}
 	expected := map[string]string{"OpEq": "eq", "OpNotEq": "not eq", "OpRe": "re", "OpNotRe": "not re"}
 	handled := map[string]bool{}
-	for _, cr := range casesOf(fn, tag, consts, nil, nil) {
+	for _, cr := range casesOfInline(fn, tag, consts, nil, nil, inlineHelpers(fn)) {
 		if strings.HasPrefix(cr.Const, "_") {
 			continue
 		}
@@ -143,6 +146,8 @@ func ruleDockerMatch(r *Run) {
 				set[map[bool]string{true: "true", false: "false"}[constant.BoolVal(e.Results[0].C)]] = true
 				continue
 			}
+			w, st := cr.W, e.State
+			res = func(v ssa.Value) ssa.Value { return unspill(w.evalVal(st, unspill(v)).V) }
 			set[classify(e.Results[0].V)] = true
 		}
 		got := joinSet(set)
@@ -594,9 +599,9 @@ func ruleOpenLog(r *Run) {
 			args := c.Common().Args
 			sn, en := rootName(args[3]), rootName(args[4])
 			// SelectLogs(q, ctx, start, end, params): positions 2 and 3
-			if len(sl.Params) < 4 || originValue(args[3]) != ssa.Value(sl.Params[2]) || originValue(args[4]) != ssa.Value(sl.Params[3]) {
+			if len(sl.Params) < 4 || originValueIn(args[3], funcGroup(sl)) != ssa.Value(sl.Params[2]) || originValueIn(args[4], funcGroup(sl)) != ssa.Value(sl.Params[3]) {
 				bad = true
-				oc.Fail(r.pos(c.Pos()), "openLog(.., %s, %s): expected (start, end)", sn, en)
+				oc.Fail(r.pos(c.Pos()), "openLog(.., %s, %s): expected (start, end) [origins %s, %s]", sn, en, describe(originValueIn(args[3], funcGroup(sl)), 0), describe(originValueIn(args[4], funcGroup(sl)), 0))
 			}
 		}
 	}
